@@ -1604,6 +1604,128 @@ func clsWindowEntries(k *ctl) (n uint64) {
 	return
 }
 
+// ---------------------------------------------------------------------------------------------
+// aligned simultaneous closes: the second end's Close is released at the very moment the event loop pops the first end's
+// close notification, so that the local close() and the peer-initiated halfClose() work on the state word at the same time
+// (many repetitions; windows of a few instructions cannot be widened with hooks).
+
+type clsStormResult struct {
+	pairs, released, halfFirst, localFirst int64
+	viol                                   []string
+	inc                                    string
+}
+
+func clsStorm(c *checkCtx, round int, streams int) (res clsStormResult) {
+	rng := caseRand(c.seed, 900000+round)
+	reg := newClsRegistry()
+	p, err := newSessionPair(pairOpt{noAccept: true, initTO: 20 * time.Second, memfd: round%2 == 0,
+		serverCfg: func(cfg *Config) { cfg.listenCallback = reg }})
+	if err != nil {
+		res.inc = "pair: " + err.Error()
+		return
+	}
+	var tickC, tickS int64
+	k := newCtl("C10/storm", rng.Int63())
+	k.on(vpPollPopped, func(obj interface{}, n int64) {
+		if obj == interface{}(p.server) {
+			atomic.AddInt64(&tickS, 1)
+		} else {
+			atomic.AddInt64(&tickC, 1)
+		}
+	})
+	k.install()
+	var cl, sv []*Stream
+	defer func() {
+		for _, st := range cl {
+			st.Close()
+		}
+		for _, st := range reg.snapshot() {
+			st.Close()
+		}
+		uninstallCtl()
+		p.close()
+	}()
+	for i := 0; i < streams; i++ {
+		st, err := p.client.OpenStream()
+		if err != nil {
+			res.inc = "open: " + err.Error()
+			return
+		}
+		st.BufferWriter().WriteBytes([]byte{byte(i)})
+		if err := st.Flush(false); err != nil {
+			res.inc = "flush: " + err.Error()
+			return
+		}
+		cl = append(cl, st)
+	}
+	for _, st := range cl {
+		s := reg.wait(st.id, 15*time.Second)
+		if s == nil {
+			res.inc = "server stream did not appear"
+			return
+		}
+		sv = append(sv, s)
+	}
+	if !p.quiesce(15 * time.Second) {
+		res.inc = "pair did not settle"
+		return
+	}
+	for i := range cl {
+		first, second, tick := cl[i], sv[i], &tickS // the client closes first; its notification is popped by the server session
+		if i%2 == 1 {
+			first, second, tick = sv[i], cl[i], &tickC
+		}
+		spin := rng.Intn(40)
+		t0 := atomic.LoadInt64(tick)
+		done := make(chan bool, 1)
+		ready := make(chan struct{})
+		go func() {
+			close(ready)
+			released := false
+			for j := 0; j < 50_000_000; j++ {
+				if atomic.LoadInt64(tick) != t0 {
+					released = true
+					break
+				}
+			}
+			spinFor(spin)
+			second.Close()
+			done <- released
+		}()
+		<-ready
+		runtime.Gosched()
+		first.Close()
+		released := <-done
+		res.pairs++
+		if released {
+			res.released++
+		}
+		for _, st := range []*Stream{first, second} {
+			// no callbacks installed: Close does everything before it returns
+			if st.getStreamState() != uint32(streamClosed) || st.session.getStreamById(st.id) == st {
+				res.viol = append(res.viol, fmt.Sprintf("storm round %d stream %d: both ends closed at once; after Close returned on the %s end the stream is in state %s and %s the session's table of active streams (second Close released when the event loop popped the peer's close notification: %v)",
+					round, st.id, map[bool]string{true: "client", false: "server"}[st.session.isClient], clsStateName(st.getStreamState()),
+					map[bool]string{true: "still in", false: "not in"}[st.session.getStreamById(st.id) == st], released))
+			}
+		}
+		if len(res.viol) > 0 {
+			return
+		}
+	}
+	res.halfFirst = int64(k.hitCount(vpHalfClosed))
+	if !p.quiesce(15*time.Second) || !fenceN(2) {
+		res.inc = "pair did not settle at the end"
+		return
+	}
+	for _, s := range []*Session{p.client, p.server} {
+		if n := s.GetActiveStreamCount(); n != 0 {
+			res.viol = append(res.viol, fmt.Sprintf("storm round %d: GetActiveStreamCount of the %s session is %d after every stream was closed on both ends",
+				round, map[bool]string{true: "client", false: "server"}[s.isClient], n))
+		}
+	}
+	return
+}
+
 func checkClose(c *checkCtx) {
 	table := clsScenarioTable()
 	timings := c.pick(4, 200)
@@ -1667,6 +1789,25 @@ func checkClose(c *checkCtx) {
 			} else if t == 0 && (sc.Idx%97 == 5) {
 				c.sample(map[string]interface{}{"scenario": sc, "profile": x.profile, "history_tail": x.history(25)})
 			}
+		}
+	}
+	for r, rounds := 0, c.pick(40, 2000); r < rounds && !stop; r++ {
+		res := clsStorm(c, r, 128)
+		name := fmt.Sprintf("storm#%d", r)
+		if res.inc != "" {
+			c.inconclusiveCase(name, res.inc)
+			continue
+		}
+		c.eval(1)
+		c.count("storm: pairs of simultaneous closes", res.pairs)
+		c.count("storm: second Close released by the pop of the peer's close notification", res.released)
+		c.count("storm: peer-initiated half-close won against the simultaneous local close", res.halfFirst)
+		if res.halfFirst > 0 && res.halfFirst < res.pairs {
+			c.nontrivial(fmt.Sprintf("storm/%d/%d", r, res.halfFirst))
+		}
+		if len(res.viol) > 0 {
+			c.violation(name, map[string]interface{}{"round": r, "violations": res.viol}, "%s", res.viol[0])
+			break
 		}
 	}
 	for _, pt := range points {
